@@ -101,6 +101,35 @@ type lgSite struct {
 	facts         [][2]*lgNode
 	pre           []lgHeld
 	undeferred    []lgHeld
+	path          []lgAct
+}
+
+// lgAct is one step of the plan leading to a site: an acquisition (with the facts known there) or a release.
+type lgAct struct {
+	acq   bool
+	l     lgLock
+	w     bool
+	facts [][2]*lgNode
+}
+
+func lgFactsCoq(fs [][2]*lgNode) string {
+	var s []string
+	for _, f := range fs {
+		s = append(s, "("+f[0].coq()+", "+f[1].coq()+")")
+	}
+	return "[" + strings.Join(s, "; ") + "]"
+}
+
+func lgPathCoq(p []lgAct) string {
+	var s []string
+	for _, a := range p {
+		if a.acq {
+			s = append(s, "PA "+a.l.coq()+" "+lgBool(a.w)+" "+lgFactsCoq(a.facts))
+		} else {
+			s = append(s, "PR "+a.l.coq())
+		}
+	}
+	return "[" + strings.Join(s, "; ") + "]"
 }
 
 // ---- (b) contract ------------------------------------------------------------------------------
@@ -205,7 +234,7 @@ func genLocks(r *Repo) (string, error) {
 		b.WriteString(CoqString(rt))
 	}
 	b.WriteString("].\n\n")
-	b.WriteString("(* (a,c,d) sites: root, enclosing function, position, what happens, locks held (outermost first), nodes known distinct, and (backend calls) every lock taken earlier on the way *)\n")
+	b.WriteString("(* (a,c,d) sites: root, enclosing function, position, what happens, locks held (outermost first), nodes known distinct, (backend calls) every lock taken earlier on the way, those without a deferred release,\n   and (calls, acquisitions, opened accesses) the plan: every Lock/Unlock executed on the path from the start of the root *)\n")
 	const chunk = 40
 	nchunks := 0
 	for i, s := range in.sites {
@@ -221,7 +250,7 @@ func genLocks(r *Repo) (string, error) {
 		if i == len(in.sites)-1 || i%chunk == chunk-1 {
 			sep = "\n]."
 		}
-		fmt.Fprintf(&b, "  mkSite %s %s %s %s %s [%s] %s %s%s\n", CoqString(s.root), CoqString(s.fn), CoqString(s.pos), s.kind, lgHeldCoq(s.held), strings.Join(fs, "; "), lgHeldCoq(s.pre), lgHeldCoq(s.undeferred), sep)
+		fmt.Fprintf(&b, "  mkSite %s %s %s %s %s [%s] %s %s%s\n", CoqString(s.root), CoqString(s.fn), CoqString(s.pos), s.kind, lgHeldCoq(s.held), strings.Join(fs, "; "), lgHeldCoq(s.undeferred), lgPathCoq(s.path), sep)
 	}
 	b.WriteString("Definition sites : list site := ")
 	for i := 0; i < nchunks; i++ {
